@@ -20,8 +20,7 @@ EXPLANATION = (
     "the resulting real plan (regular and rectilinear storage grids), together with coverage and task enumeration"
 )
 TRUSTED_BASE = c01.TRUSTED_BASE
-ASSUMPTIONS = ["atomicity of one key write is the storage contract; what Zarr does inside one __setitem__ and sharding codec internals are outside",
-               "rechunk obligations use min_mem=1 (single-stage plans); multi-stage plans are covered under C14's stage lemmas"]
+ASSUMPTIONS = ["atomicity of one key write is the storage contract; what Zarr does inside one __setitem__ and sharding codec internals are outside"]
 
 
 def _mk(builder, keys, pkeys=("p0", "p1")):
@@ -108,6 +107,13 @@ def obligations(tier):
                         [("n", 1, N), ("c", 1, N), ("c2", 1, N), ("M", 0, MM)] + P[:1],
                         bounds=f"n, source chunk, target chunk <= {N}; allowed_mem 0..{MM} bytes (copy chunk between max(source,target) and n); position p",
                         witness_rule=lambda m: m["c"] != m["c2"], **common))
+    T = 6 if tier == "quick" else 9
+    for irr in (1, 0):
+        obls.append(Obl(f"grid[rechunk-2d-transpose-multistage,allow_irregular={irr}]",
+                        _mk(lambda n, m, c, t, M, mn, irr=irr: SG.b_rechunk_2d_transpose(n, m, c, t, M, mn, irr), ["n", "m", "c", "t", "M", "mn"]),
+                        [("n", 2, T), ("m", 2, T), ("c", 1, T), ("t", 1, T), ("M", 0, 60), ("mn", 0, 8)] + P,
+                        bounds=f"(n, m) <= {T}x{T} int8 array, chunks (c, 1) -> (1, t), allowed_mem 0..60 and min_mem 0..8: tight budgets give multi-stage plans with intermediate arrays (geometry forked by value)",
+                        witness_rule=lambda m: True, **common))
     n2 = 4 if tier == "quick" else 6
     for irr in ((1, 0) if tier != "quick" else ()):  # nonlinear in two dims: thorough tier only
         obls.append(Obl(f"grid[rechunk-2d,allow_irregular={irr}]",
